@@ -100,6 +100,13 @@ def operand_forms():
         return build_checked(spec(("q0", "q1"), (3,), t, "f8")), build_checked(spec(("q0", "q1"), (3,), u, "c16"))
     forms.append(("float/complex coefficients from 5e-324 to 1e300", magnitudes))
 
+    def nonfinite():
+        t = [((0, 0), [float("inf"), 3.5, float("nan")]), ((1, 0), [1.0, -float("inf"), 0.25]), ((0, 2), [float("nan"), -2.0, 1.0])]
+        u = [((0, 0), [1.0, float("inf"), 2.0]), ((1, 0), [float("nan"), 1.0, -float("inf")]), ((0, 2), [1.0, 0.0, float("inf")])]
+        from ..alpha import build
+        return build(spec(("q0", "q1"), (3,), t, "f8")), build(spec(("q0", "q1"), (3,), u, "f8"))
+    forms.append(("aligned float with inf and nan coefficients", nonfinite))
+
     # operands of different rank: missing leading unit axes, genuine broadcasting, 0-d against an array
     def ranks(sa, sb, dtype="i8"):
         return lambda: (build_checked(dense(sa, dtype, 0)), build_checked(dense(sb, dtype, 1)))
